@@ -140,6 +140,10 @@ class Family:
             par = lambda t: f'({t})' if '→' in t else t
             ty = ' → '.join([par(LEAN_TYPE[a]) for a in p.args] + [f'Option ({LEAN_TYPE[p.ret]})' if p.raises else par(LEAN_TYPE[p.ret])])
             srcs = ', '.join(sorted(k for k, q in self.prims.items() if q.field == p.field))
+            if py == 'shape2':
+                out += [f'  /-- `r, c = a.shape` (rows) -/', f'  {p.field}_rows : {par(LEAN_TYPE[p.args[0]])} → Nat',
+                        f'  /-- `r, c = a.shape` (columns) -/', f'  {p.field}_cols : {par(LEAN_TYPE[p.args[0]])} → Nat']
+                continue
             if py == 'np.meshgrid':
                 out += [f'  /-- `{srcs}` (first result) -/', f'  {p.field}_x : {ty}', f'  /-- `{srcs}` (second result) -/', f'  {p.field}_y : {ty}']
                 continue
@@ -184,7 +188,7 @@ class Tr:
     def coerce(self, txt, sort, want, node):
         if want is None or sort == want:
             return txt
-        if sort == 'none' and want in ('optK', 'optD', 'optint'):
+        if sort == 'none' and want in ('optK', 'optD', 'optint', 'optpair'):
             return '(none)'
         if want == 'optint' and sort in ('int', 'nat', 'natlit'):
             return f'(some {self.coerce(txt, sort, "int", node)})'
@@ -399,6 +403,11 @@ class Tr:
                     if sb in ('nat', 'int', 'natlit', 'K'):
                         return f'(fun p => List.map (fun t => t - {self.coerce(b, sb, "K", node)}) ({a} p))', 'vfld'
                 raise self.err(node, f'operator on an index array outside the subset')
+        if op is ast.Pow and not isinstance(node.left, ast.Constant) and not isinstance(node.right, ast.Constant):
+            a, sa = self._E(node.left, env)
+            e, se = self._E(node.right, env)
+            if sa == 'vec' and se == 'nat':             # elementwise power with a natural exponent: prelude `pyPowN` (repeated product)
+                return f'(List.map (fun t => pyPowN (ofNat 1) t {e}) {a})', 'vec'
         if op is ast.Pow:
             if isinstance(node.right, ast.Constant) and node.right.value == 2:
                 a, s = self._E(node.left, env, want)
@@ -563,6 +572,10 @@ class Tr:
             if s != 'vec':
                 raise self.err(node, f'[::-1] on sort {s}')
             return f'(List.reverse {a})', 'vec'
+        if isinstance(sl, ast.Constant) and sl.value in (0, 1) and not isinstance(sl.value, bool):
+            a0, s0 = self._E(node.value, env)
+            if s0 == 'pair':
+                return f'({a0}.{sl.value + 1})', 'K'
         w = self._window(sl, env)
         if w is not None and 'getwin' in self.fam.prims:
             p = self.fam.prims['getwin']
@@ -712,6 +725,16 @@ class Tr:
             a, _ = self.E(node.args[0].left.elts[0], env, p.args[0])
             n, _ = self.E(node.args[0].right, env, p.args[1])
             return f'(P.{p.field} {a} {n})', p.ret
+        if d == 'np.dot' and len(node.args) == 2 and not node.keywords and 'np.dot' not in self.fam.prims:
+            a, sa = self._E(node.args[0], env)
+            b, sb = self._E(node.args[1], env)
+            if f'np.dot:{sa},{sb}' in self.fam.prims:
+                p = self.fam.prims[f'np.dot:{sa},{sb}']
+                return f'(P.{p.field} {a} {b})', p.ret
+            raise self.err(node, f'np.dot on sorts {sa},{sb}')
+        if isinstance(node.func, ast.Attribute) and node.func.attr == 'sum' and not node.args and not node.keywords \
+                and isinstance(node.func.value, ast.Name) and env.get(node.func.value.id) == 'vec':
+            return f'(List.foldl (fun a b => a + b) (ofNat 0) {lname(node.func.value.id)})', 'K'
         if d == 'len' and len(node.args) == 1 and not node.keywords:
             a, sa = self._E(node.args[0], env)
             if f'len:{sa}' in self.fam.prims:
@@ -1038,6 +1061,14 @@ class Tr:
                 return [pad + f'match {txt} with', pad + '| none => none', pad + f'| some {r} =>',
                         pad + f'  let {lname(names[0])} := {r}.1', pad + f'  let {lname(names[1])} := {r}.2'] \
                     + self.S(rest, env2, k, ind + 1)
+            if isinstance(val, ast.Attribute) and val.attr == 'shape' and len(names) == 2 and 'shape2' in self.fam.prims:
+                # `r, c = img.shape` of a 2-D array
+                p = self.fam.prims['shape2']
+                a_, _ = self.E(val.value, env, p.args[0])
+                env2 = dict(env)
+                env2[names[0]] = env2[names[1]] = 'nat'
+                return [pad + f'let {lname(names[0])} := P.{p.field}_rows {a_}', pad + f'let {lname(names[1])} := P.{p.field}_cols {a_}'] \
+                    + self.S(rest, env2, k, ind)
             if isinstance(val, ast.Call) and dotted(val.func) == 'np.meshgrid' and len(val.args) == 2 and not val.keywords \
                     and len(names) == 2 and 'np.meshgrid' in self.fam.prims:
                 # `X, Y = np.meshgrid(x, y)`: X[i, j] = x[j], Y[i, j] = y[i] (numpy's default 'xy' indexing)
@@ -1121,6 +1152,13 @@ class Tr:
             env2[tgt.id] = sort
             return [pad + f'let {lname(tgt.id)} := {txt}'] + self.S(rest, env2, k, ind)
         if isinstance(s, ast.If):
+            # `if <dtype test>: x = x.astype(np.float64)`: a conversion to double of an array whose values are scalars of the
+            # family already - the identity at value level, whatever the test says
+            if not s.orelse and len(s.body) == 1 and isinstance(s.body[0], ast.Assign) and len(s.body[0].targets) == 1 \
+                    and isinstance(s.body[0].targets[0], ast.Name) and env.get(s.body[0].targets[0].id) in ('mat', 'fld', 'vec') \
+                    and ast.unparse(s.body[0].value).replace(' ', '') == f'{s.body[0].targets[0].id}.astype(np.float64)':
+                self.note('identity-cast', s)
+                return self.S(rest, env, k, ind)
             # `if out is None: out = output` and other pure plumbing tests
             if self._plumbing_test(s.test):
                 if self.assigned(s.body + s.orelse) and all(n in self.drop for n in self.assigned(s.body + s.orelse)) \
@@ -1146,7 +1184,7 @@ class Tr:
                 x, positive = nt
                 env_none, env_some = dict(env), dict(env)
                 env_none.pop(x)
-                env_some[x] = {'optK': 'K', 'optD': 'dtype', 'optint': 'int'}[env[x]]
+                env_some[x] = {'optK': 'K', 'optD': 'dtype', 'optint': 'int', 'optpair': 'pair'}[env[x]]
                 b_then, b_else = (env_none, env_some) if positive else (env_some, env_none)
                 h_none, h_some = f'| none =>', f'| some {lname(x)} =>'
                 heads = (f'(match {lname(x)} with', h_none if positive else h_some, h_some if positive else h_none, ')')
@@ -1223,7 +1261,7 @@ class Tr:
     def _none_test(self, test, env):
         """`x is None` / `x is not None` on an optional scalar -> (x, is_positive)"""
         if isinstance(test, ast.Compare) and len(test.ops) == 1 and isinstance(test.ops[0], (ast.Is, ast.IsNot)) \
-                and isinstance(test.left, ast.Name) and env.get(test.left.id) in ('optK', 'optD', 'optint') \
+                and isinstance(test.left, ast.Name) and env.get(test.left.id) in ('optK', 'optD', 'optint', 'optpair') \
                 and isinstance(test.comparators[0], ast.Constant) and test.comparators[0].value is None:
             return test.left.id, isinstance(test.ops[0], ast.Is)
         return None
@@ -1694,6 +1732,15 @@ IMRESIZE = Family(
         'zoom': Prim('zoom_factor', ['arr', 'sizearg', 'nat'], 'arr', kw={'order': 2}, raises=True),
     }, extra_params=EMBED, prop='C18')
 
+LEAN_TYPE.update({'optpair': 'Option (K × K)', 'pair': 'K × K'})
+MOMENTS = Family(
+    'moments', ['K'], '[Add K] [Sub K] [Mul K] [Div K]', 'MomentPrims',
+    {
+        'shape2': Prim('shape', ['mat'], 'nat'),
+        'np.dot:mat,vec': Prim('dot_mv', ['mat', 'vec'], 'vec', doc='`np.dot(img, p)`: one dot product per row'),
+        'np.dot:vec,vec': Prim('dot_vv', ['vec', 'vec'], 'K'),
+    }, extra_params=EMBED, prop='C19')
+
 HISTO = Family(
     'histogram thresholds', ['H', 'G'], '', 'HistPrims',
     {
@@ -1761,6 +1808,8 @@ TARGETS = [
     Target('morph.py', 'disk', [('radius', 'nat'), ('dim', 'nat')], 'bfld', DISK,
            consts={'bool': ('P.bool_dtype', 'dtype'), 'float': ('P.float_dtype', 'dtype')}),
     Target('thin.py', 'thin', [('binimg', 'arr'), ('max_iter', 'int')], 'arr', THIN, consts={'bool': ('P.bool_dtype', 'dtype')}),
+    Target('features/moments.py', 'moments', [('img', 'mat'), ('p0', 'nat'), ('p1', 'nat'), ('cm', 'optpair'), ('convert_to_float', 'bool'),
+                                              ('normalize', 'bool'), ('normalise', 'bool')], 'K', MOMENTS),
     Target('resize.py', 'imresize', [('img', 'arr'), ('nsize', 'sizearg'), ('order', 'nat')], 'arr', IMRESIZE, raises=True),
     # a reviewed SLICE of interpolate.zoom: the path `out is None` (and the deprecated alias `output` not given), up to the
     # assignment of `output_shape` - the shape arithmetic `int(s * z)` with the scalar-to-vector broadcast and both checks
@@ -1776,7 +1825,7 @@ TARGETS = [
     Target('convolve.py', 'wavelet_center', [('f', 'arr'), ('border', 'int'), ('dtype', 'dtype'), ('cval', 'K')], 'arr', WAVE, raises=True),
     Target('convolve.py', 'wavelet_decenter', [('w', 'arr'), ('oshape', 'intlist'), ('border', 'int')], 'arr', WAVE, raises=True),
 ]
-FAMILIES = [MORPH, CONV, THRESH, HISTO, LAPL, RC, SOFT, EXTREMA, STRETCH, COLORS, COLORS2, WAVE, CIRCLE, RESIZE, EULER, LABELED, DISK, THIN, ZOOM, IMRESIZE]
+FAMILIES = [MORPH, CONV, THRESH, HISTO, LAPL, RC, SOFT, EXTREMA, STRETCH, COLORS, COLORS2, WAVE, CIRCLE, RESIZE, EULER, LABELED, DISK, THIN, ZOOM, IMRESIZE, MOMENTS]
 
 
 def _find_function(tree, name):
@@ -1833,6 +1882,10 @@ PRELUDE = ['/- GENERATED by translator/pybody.py. Shared prelude of the translat
            'def whileFuel {σ : Type} : Nat → (σ → Bool) → (σ → σ) → σ → σ',
            '  | 0, _, _, s => s',
            '  | n + 1, c, b, s => if c s then whileFuel n c b (b s) else s', '',
+           '/-- `x ** n` for a natural exponent as the repeated product (`one` is the scalar 1) -/',
+           'def pyPowN {K : Type} [Mul K] (one : K) (x : K) : Nat → K',
+           '  | 0 => one',
+           '  | n + 1 => pyPowN one x n * x', '',
            '/-- `np.min` of a non-empty integer array (numpy raises on an empty one: the reviewed call sites test the length first) -/',
            'def listMinI : List Int → Int',
            '  | [] => 0',
